@@ -1,9 +1,12 @@
 (* C10 -- Incomplete exploration is always reported.
    Statements only; proofs are `exact <lemma>` from Proofs/JumpiProofs.v (over Gen/GenJumpi.v, the
    decision part of SEVM.jumpi regenerated on every run) and Proofs/RunnerProofs.v (over
-   Gen/GenRunTest.v: which logs/warnings run_test, setup and run_target_function report). *)
+   Gen/GenRunTest.v: which logs/warnings run_test, setup and run_target_function report) and
+   Proofs/ReportProofs.v (over Gen/GenCutWarn.v: the --depth cut of SEVM.run and the text of its warning,
+   Gen/GenLogFilter.v: the de-duplicating logger of logs.py). *)
 From Coq Require Import ZArith List Bool.
-From HV Require Import Gen.GenJumpi Gen.GenRunTest Spec.PanicSpec Model.RunnerModel Proofs.JumpiProofs Proofs.RunnerProofs.
+From HV Require Import Gen.GenJumpi Gen.GenRunTest Gen.GenCutWarn Gen.GenLogFilter Spec.PanicSpec Model.RunnerModel Model.ReportModel
+  Proofs.JumpiProofs Proofs.RunnerProofs Proofs.ReportProofs.
 Import ListNotations.
 Open Scope Z_scope.
 
@@ -83,6 +86,47 @@ Theorem C10_invariant_flags : forall r,
 Proof. exact loop_bound_warned_iff. Qed.
 Print Assumptions C10_invariant_flags.
 
+(* an unsupported feature stops a path: the path is reported with output data None or a HalmosException
+   (wherever in the call tree the internal error was raised).  A PASS without --width warning means that
+   EVERY such path was an assertion-failure candidate (answered by the assertion solver) or was refuted by
+   the solver -- for every list of reported paths.  (is_stuck = CallContext.is_stuck, tied at L1/L3.) *)
+Theorem C10_pass_no_stuck : forall (Q : Type) (sa sl : Q -> Z) codes width (e : exploration Q),
+  r_exit (run_test Q sa sl codes width e) = EX_PASS ->
+  r_warn_width (run_test Q sa sl codes width e) = false ->
+  forall l, In l (ex_leaves e) ->
+    (match l_data l with None => true | Some _ => match root_err (l_ctx l) with EHalmos => true | _ => false end end) = true ->
+    (match is_panic_of (root_err (l_ctx l)) (l_data l) codes with TTrue => true | _ => false end) = true \/
+    global_fail (l_ctx l) = true \/ sl (l_query l) = S_UNSAT.
+Proof. exact pass_no_stuck. Qed.
+Print Assumptions C10_pass_no_stuck.
+
+(* --depth: the guard regenerated from SEVM.run *)
+Theorem C10_depth_cut_guard : forall max_depth step_id,
+  depth_cut max_depth step_id = true <-> (max_depth <> 0 /\ step_id > max_depth).
+Proof. exact depth_cut_spec. Qed.
+Print Assumptions C10_depth_cut_guard.
+
+(* --depth: the warning goes through the process-wide de-duplicating logger (key = message text).  For every
+   sequence of test executions whose signatures are pairwise distinct (the tests of one contract, overloads
+   included), every limit, every number of abandoned states per test and every initial filter state that has
+   not seen their texts: a test's run prints the warning exactly when one of its states was abandoned. *)
+Theorem C10_depth_cut_reported : forall d runs records,
+  NoDup (map (fun t => fi_sig (tr_fun t)) runs) ->
+  (forall t, In t runs -> ~ In (depth_msg (tr_fun t) d) records) ->
+  session d runs records = map (fun t => negb (Nat.eqb (tr_cuts t) 0)) runs.
+Proof. exact depth_cut_reported. Qed.
+Print Assumptions C10_depth_cut_reported.
+
+(* GENUINE DEFECT (C10-depth-warning-dedup-across-contracts): the text carries no contract name and the filter
+   lives as long as the process, so with `distinct (contract, signature)` the statement is FALSE: the same test
+   signature in a second contract of the run loses its --depth warning (clean [PASS], observed at L3). *)
+Theorem C10_depth_cut_reported_across_contracts_refuted :
+  exists d runs,
+    NoDup (map (fun t => (fi_contract (tr_fun t), fi_sig (tr_fun t))) runs) /\
+    session d runs [] <> map (fun t => negb (Nat.eqb (tr_cuts t) 0)) runs.
+Proof. exact depth_cut_reported_across_contracts_refuted. Qed.
+Print Assumptions C10_depth_cut_reported_across_contracts_refuted.
+
 Example C10_nonvacuous :
   (* symbolic condition at the bound: the true side is cut and logged; one below the bound it is followed *)
   d_follow_true (jumpi_decide R_SAT R_SAT 2 0 2) = false /\ d_logged (jumpi_decide R_SAT R_SAT 2 0 2) = true /\
@@ -92,5 +136,11 @@ Example C10_nonvacuous :
   (* concrete condition, --loop 0 *)
   d_follow_true (jumpi_decide R_SAT R_UNSAT 1000 0 0) = true /\
   loop_bound_warned (mkInvRun false [false; true] false) = true /\
-  loop_bound_warned (mkInvRun false [false; false] false) = false.
+  loop_bound_warned (mkInvRun false [false; false] false) = false /\
+  (* --depth: two overloads and another name in one contract, all cut: all warned; an uncut test is silent *)
+  session 200 [mkTestRun (mkFunInfo 1 5 7 9) 2; mkTestRun (mkFunInfo 1 5 8 10) 1; mkTestRun (mkFunInfo 1 6 11 12) 0] [] = [true; true; false] /\
+  depth_cut 200 201 = true /\ depth_cut 200 200 = false /\ depth_cut 0 1000000 = false /\
+  (* a path stopped by an internal error inside a sub-call (data None, no error at the root) makes the test STUCK *)
+  r_exit (run_test bool (fun _ => S_SAT) (fun _ => S_SAT) [1] 0
+            (mkExploration [mkLeaf (CNode ENone []) (Some []) true; mkLeaf (CNode ENone [CNode EHalmos []]) None true] false false)) = EX_STUCK.
 Proof. repeat split; reflexivity. Qed.
